@@ -345,79 +345,89 @@ pub fn expected_row(cfg: &TableCfg, s: &LineSpec) -> Option<Vec<Cell>> {
 }
 
 /// Lines that by the documented rule can never become a row of table `t` under `cfg`.
-pub fn gen_noise(rng: &mut Rng, cfg: &TableCfg) -> Vec<u8> {
-    let generic: Vec<Vec<u8>> = vec![
-        b"".to_vec(),
-        b"   ".to_vec(),
-        b"\t".to_vec(),
-        b"garbage line without structure".to_vec(),
-        b"E ".to_vec(),
-        b"E k".to_vec(),
-        b"e k=a;n=1;r=0.5;".to_vec(),
-        b"J k=a;m=1;w=x".to_vec(),
-        "zażółć gęślą jaźń ✓".as_bytes().to_vec(),
-        vec![b'#'; 300],
-    ];
+/// (A declared DEFAULT counts as a value: with a DEFAULT column every line is a row unless a NOT NULL
+/// column stays NULL.)
+pub fn noise_pool(cfg: &TableCfg) -> Vec<Vec<u8>> {
+    let has_default = cfg.kmod == KMod::Default || cfg.nmod == NMod::Default;
+    let k_required = cfg.kmod == KMod::NotNull;
+    let n_required = cfg.nmod == NMod::NotNull;
+    // a line on which no pattern matches: every column is its DEFAULT or NULL
+    let unmatched_is_noise = !has_default || k_required || n_required;
+    let mut pool: Vec<Vec<u8>> = Vec::new();
     match cfg.variant {
         Variant::Capture => {
-            let mut pool = generic;
-            pool.push(b"E k=a;n=1;r=0.5".to_vec()); // one separator short
-            pool.push(b"E k=a;n=1".to_vec());
-            pool.push(b"X k=a;n=1;r=0.5;".to_vec());
-            pool.push(b"E k=A;n=1;r=0.5;".to_vec()); // upper case key is outside [a-z ]
-            pool.push(b"E k=a;n=1;r=0.5;y".to_vec());
-            pool.push(b" E k=a;n=1;r=0.5;".to_vec());
-            if !cfg.with_b && cfg.kmod != KMod::Default && cfg.nmod != NMod::Default && !cfg.with_ts {
-                pool.push(b"E ;;;".to_vec()); // matches, every column NULL
+            if unmatched_is_noise {
+                for l in [
+                    &b""[..],
+                    b"   ",
+                    b"\t",
+                    b"garbage line without structure",
+                    b"E ",
+                    b"E k",
+                    b"e k=a;n=1;r=0.5;",
+                    b"J k=a;m=1;w=x",
+                    b"E k=a;n=1;r=0.5",
+                    b"E k=a;n=1",
+                    b"X k=a;n=1;r=0.5;",
+                    b"E k=A;n=1;r=0.5;",
+                    b"E k=a;n=1;r=0.5;y",
+                    b" E k=a;n=1;r=0.5;",
+                ] {
+                    pool.push(l.to_vec());
+                }
+                pool.push("zażółć gęślą jaźń ✓".as_bytes().to_vec());
+                pool.push(vec![b'#'; 300]);
             }
-            if cfg.nmod == NMod::NotNull {
+            // the pattern matches but no column gets a value
+            if k_required || n_required || (!cfg.with_b && !has_default) {
+                pool.push(b"E ;;;".to_vec());
+            }
+            if n_required {
                 pool.push(b"E k=a;;r=0.5;".to_vec());
                 pool.push(b"E k=a;n=1x;r=0.5;".to_vec());
             }
-            if cfg.kmod == KMod::NotNull {
+            if k_required {
                 pool.push(b"E ;n=3;r=0.5;".to_vec());
             }
-            rng.pick(&pool).clone()
         }
         Variant::Split => {
-            // every line has field 1, so only a failing NOT NULL column makes a line invisible
-            if cfg.nmod == NMod::NotNull {
-                let pool: Vec<Vec<u8>> = vec![b"".to_vec(), b"a".to_vec(), b"a;".to_vec(), b"a;x1;0.5".to_vec(), b"garbage".to_vec(), b"a;;0.25".to_vec()];
-                rng.pick(&pool).clone()
-            } else {
-                Vec::new() // caller must skip noise for this configuration (marker: see noise_possible)
+            // field 1 always exists, so only a failing NOT NULL n makes a line invisible
+            if n_required {
+                for l in [&b""[..], b"a", b"a;", b"a;x1;0.5", b"garbage", b"a;;0.25"] {
+                    pool.push(l.to_vec());
+                }
             }
         }
         Variant::Multi => {
-            let mut pool: Vec<Vec<u8>> = vec![b"".to_vec(), b"  ".to_vec(), b"nothing here".to_vec(), b"K=a N=1".to_vec(), b"k= n= r=".to_vec(), "k=✓".as_bytes().to_vec()];
-            if cfg.kmod == KMod::Default || cfg.nmod == NMod::Default {
-                // a DEFAULT makes every line a row unless a NOT NULL column fails
-                pool.clear();
+            if unmatched_is_noise {
+                for l in [&b""[..], b"  ", b"nothing here", b"K=a N=1"] {
+                    pool.push(l.to_vec());
+                }
+                pool.push("k=✓".as_bytes().to_vec());
             }
-            if cfg.nmod == NMod::NotNull {
+            if n_required {
                 pool.push(b"ev | k=a | r=0.5".to_vec());
                 pool.push(b"k=a".to_vec());
-                pool.push(b"".to_vec());
             }
-            if cfg.kmod == KMod::NotNull {
+            if k_required {
                 pool.push(b"ev | n=5".to_vec());
-                pool.push(b"".to_vec());
             }
-            if pool.is_empty() {
-                return Vec::new();
-            }
-            rng.pick(&pool).clone()
         }
     }
+    pool
+}
+
+pub fn gen_noise(rng: &mut Rng, cfg: &TableCfg) -> Vec<u8> {
+    let pool = noise_pool(cfg);
+    if pool.is_empty() {
+        return Vec::new();
+    }
+    rng.pick(&pool).clone()
 }
 
 /// Whether non-admitted lines exist at all for this configuration.
 pub fn noise_possible(cfg: &TableCfg) -> bool {
-    match cfg.variant {
-        Variant::Capture => true,
-        Variant::Split => cfg.nmod == NMod::NotNull,
-        Variant::Multi => !(cfg.kmod == KMod::Default || cfg.nmod == NMod::Default) || cfg.nmod == NMod::NotNull || cfg.kmod == KMod::NotNull,
-    }
+    !noise_pool(cfg).is_empty()
 }
 
 pub fn gen_joined_line(rng: &mut Rng, keys: usize, null_pct: usize) -> String {
@@ -492,7 +502,8 @@ impl Query {
 }
 
 pub fn gen_filter(rng: &mut Rng, cfg: &TableCfg, prefix: &str) -> String {
-    let c = rng.range(-2, 3);
+    // constants are kept non-negative: "n = -2" does not parse (operator "=-"), which is not this family's subject
+    let c = rng.range(0, 3);
     let key = *rng.pick(&KEYS[..3]);
     let mut pool = vec![
         format!("{}n > {}", prefix, c),
@@ -603,7 +614,7 @@ pub fn agg_pool(cfg: &TableCfg, order_insensitive: bool, p: &str) -> Vec<String>
 }
 
 pub fn gen_having(rng: &mut Rng, cfg: &TableCfg, group_by: &[String], p: &str) -> String {
-    let c = rng.range(-1, 3);
+    let c = rng.range(0, 3);
     let mut pool = vec![
         format!("COUNT(*) >= {}", rng.range(1, 3)),
         format!("COUNT(*) < {}", rng.range(2, 4)),
